@@ -160,7 +160,7 @@ struct linear {
         COVFIE_DEVICE typename covariant_output_t::vector_t
         at(typename contravariant_input_t::vector_t coord) const
         {
-            if constexpr (covariant_output_t::dimensions == 1) {
+            if constexpr (contravariant_input_t::dimensions == 1) {
                 typename contravariant_output_t::scalar_t i =
                     static_cast<typename contravariant_output_t::scalar_t>(
                         coord[0]
@@ -190,7 +190,7 @@ struct linear {
                 }
 
                 return rv;
-            } else if constexpr (covariant_output_t::dimensions == 2) {
+            } else if constexpr (contravariant_input_t::dimensions == 2) {
                 typename contravariant_output_t::scalar_t i =
                     static_cast<typename contravariant_output_t::scalar_t>(
                         coord[0]
@@ -233,7 +233,7 @@ struct linear {
                 }
 
                 return rv;
-            } else if constexpr (covariant_output_t::dimensions == 3) {
+            } else if constexpr (contravariant_input_t::dimensions == 3) {
                 typename contravariant_output_t::scalar_t i =
                     static_cast<typename contravariant_output_t::scalar_t>(
                         coord[0]
@@ -319,10 +319,10 @@ struct linear {
                 }
 
                 std::remove_reference_t<typename covariant_output_t::vector_t>
-                    pc[std::size_t(1) << covariant_output_t::dimensions];
+                    pc[std::size_t(1) << contravariant_input_t::dimensions];
 
                 for (std::size_t n = 0;
-                     n < std::size_t(1) << covariant_output_t::dimensions;
+                     n < std::size_t(1) << contravariant_input_t::dimensions;
                      ++n)
                 {
                     pc[n] = m_backend.at(_backend_index_helper(
@@ -340,13 +340,13 @@ struct linear {
                     rv[q] = 0.f;
 
                     for (std::size_t n = 0;
-                         n < std::size_t(1) << covariant_output_t::dimensions;
+                         n < std::size_t(1) << contravariant_input_t::dimensions;
                          ++n)
                     {
                         input_scalar_type f{1.};
 
                         for (std::size_t m = 0;
-                             m < covariant_output_t::dimensions;
+                             m < contravariant_input_t::dimensions;
                              ++m)
                         {
                             if (n & (std::size_t(1) << m)) {
